@@ -113,7 +113,7 @@ def gen_tasks(tier, seed):
     rng = random.Random(seed * 7919 + 2)
     tasks = corpus_tasks()
     gid = 0
-    reps = 1 if tier == "quick" else 5
+    reps = 1 if tier == "quick" else 4
     for _ in range(reps):
         # every graft type in both modes and with both root kinds
         for k, graft in enumerate(GRAFTS):
@@ -122,7 +122,7 @@ def gen_tasks(tier, seed):
                 tasks.append(_task(rng, gid, seed, tier, mode=mode, graft=graft,
                                    root=("eigh" if (k + (mode == "sharded")) % 2 else "newton")))
         # well-conditioned end-to-end stream (eigh) and exponent stream (newton)
-        for k in range(10):
+        for k in range(12):
             gid += 1
             tasks.append(_task(rng, gid, seed, tier, root=("eigh" if k % 2 == 0 else "newton"), well=True,
                                mode=("sharded" if k % 5 == 4 else "replicated")))
@@ -131,7 +131,7 @@ def gen_tasks(tier, seed):
             gid += 1
             tasks.append(_task(rng, gid, seed, tier, dy=True, mode=("sharded" if k % 4 == 3 else "replicated")))
         # free sampling of the cross product
-        for _k in range(16):
+        for _k in range(24):
             gid += 1
             tasks.append(_task(rng, gid, seed, tier))
     out = []
